@@ -376,7 +376,11 @@ func (c09) Execute(env *Env) {
 				want = m.Delete(wr.op.IDs)
 			}
 			if rejected != (wr.err != nil) {
-				env.Violate("wrong-answer", "concurrent-write-outcome", "%s: call returned error %v but applying the batches in storage-transaction order the model says rejected=%v", where, wr.err, rejected)
+				sig := "concurrent-write-outcome"
+				if wr.err != nil && !rejected {
+					sig += ":spurious-rejection:" + errSigSite(wr.err.Error()) // a valid batch was refused: name the failing site
+				}
+				env.Violate("wrong-answer", sig, "%s: call returned error %v but applying the batches in storage-transaction order the model says rejected=%v", where, wr.err, rejected)
 				return
 			}
 			if wr.err == nil && wr.op.Kind != "insert" && !sameIDSet(wr.ids, want) {
@@ -527,7 +531,7 @@ func (c09) Execute(env *Env) {
 			wa, ca := w.AskPanel(p.Panel), cold.AskPanel(p.Panel)
 			for i := range wa {
 				if wa[i].Err != "" {
-					env.Violate("spurious-error", "search-error-after", "after all clients finished: query %d failed on the warm instance: %s", i, wa[i].Err)
+					env.Violate("spurious-error", "search-error-after:"+errSigSite(wa[i].Err), "after all clients finished: query %d failed on the warm instance: %s", i, wa[i].Err)
 					return
 				}
 			}
